@@ -661,11 +661,66 @@ fn cmd_replay(args: &[String]) {
     std::fs::write(&args[2], serde_json::to_string_pretty(&Value::Array(results)).unwrap()).unwrap();
 }
 
+/// Native evaluation of small repo functions on concrete arguments (replay of MIR->SMT counterexamples).
+fn cmd_call(args: &[String]) {
+    let num = |i: usize| -> u128 { args[i].parse::<u128>().expect("numeric argument") };
+    match args[0].as_str() {
+        "try_pi_len" => {
+            let r = qp_wormhole_inputs::public_batch_pi::try_pi_len(num(1) as usize, num(2) as usize);
+            println!("{}", match r { Some(v) => format!("Some {v}"), None => "None".to_string() });
+        }
+        "validate_proof_count" => {
+            println!("{}", if qp_wormhole_inputs::validate_proof_count(num(1) as usize, "n").is_ok() { "Ok" } else { "Err" });
+        }
+        "quantize" => {
+            use plonky2::field::types::PrimeField64;
+            match zk_circuits_common::serialization::try_u128_to_quantized_felt(num(1)) {
+                Ok(f) => println!("Ok {}", f.to_canonical_u64()),
+                Err(_) => println!("Err"),
+            }
+        }
+        "preflight_priv" => {
+            // args: JSON list of leaf public-input vectors; calls the REAL private-batch commit preflight
+            use plonky2::fri::proof::FriProof;
+            use plonky2::hash::merkle_tree::MerkleCap;
+            use plonky2::plonk::proof::{OpeningSet, Proof, ProofWithPublicInputs};
+            let v: Value = serde_json::from_str(&args[1]).expect("json");
+            let proofs: Vec<ProofWithPublicInputs<F, C, D>> = v
+                .as_array()
+                .unwrap()
+                .iter()
+                .map(|pis| ProofWithPublicInputs {
+                    proof: Proof {
+                        wires_cap: MerkleCap(vec![]),
+                        plonk_zs_partial_products_cap: MerkleCap(vec![]),
+                        quotient_polys_cap: MerkleCap(vec![]),
+                        openings: OpeningSet {
+                            constants: vec![], plonk_sigmas: vec![], wires: vec![], plonk_zs: vec![], plonk_zs_next: vec![],
+                            partial_products: vec![], quotient_polys: vec![], lookup_zs: vec![], lookup_zs_next: vec![],
+                        },
+                        opening_proof: FriProof {
+                            commit_phase_merkle_caps: vec![],
+                            query_round_proofs: vec![],
+                            final_poly: plonky2::field::polynomial::PolynomialCoeffs { coeffs: vec![] },
+                            pow_witness: F::ZERO,
+                        },
+                    },
+                    public_inputs: pis.as_array().unwrap().iter().map(|x| F::from_noncanonical_u64(x.as_u64().unwrap())).collect(),
+                })
+                .collect();
+            let r = wormhole_aggregator::private_batch::prover::lib::verif_ensure_leaf_batch_compatible(&proofs);
+            println!("{}", if r.is_ok() { "Ok" } else { "Err" });
+        }
+        other => panic!("unknown function {other}"),
+    }
+}
+
 fn main() {
     let args: Vec<String> = std::env::args().collect();
     match args[1].as_str() {
         "emit" => cmd_emit(&args[2..]),
         "replay" => cmd_replay(&args[2..]),
+        "call" => cmd_call(&args[2..]),
         _ => panic!("usage: csx-emit emit|replay ..."),
     }
 }
